@@ -381,6 +381,92 @@ theorem gen_insert_loop_multi_eq_model (ctx : Ctx) (h : Heap) (id : Nat) (k v : 
   rw [insM_plug id k v ctx nil hp]
   exact gen_insert_loop_eq_climb true ctx h _ fuel old hn hc hs (by simpa [ids] using hnd) hok hf
 
+/-- the translated `while(parent)` loop behind `rebalParentUpwards:` of one header -/
+def removeUpLoop (multi : Bool) : Nat → Heap → Nat → Nat → Option Heap :=
+  if multi then Multi.removeUpwards_loop else Map.removeUpwards_loop
+
+/-- **The loop behind `rebalParentUpwards:`** of `remove(it)` is the model's way back to the root (`goL` / `goR` / `fixup`
+    with the early exit), also when the removed item hung in the root cell (`ctx = top`: nothing to do);
+    `ctx.depth + 1` units of fuel suffice. -/
+theorem gen_remove_up_eq_climb (multi : Bool) (ctx : Ctx) (h : Heap) (sub : Tree) (fuel old : Nat)
+    (hc : ReprCtx h ctx) (hs : Repr h (h.get ctx.cell) ctx.par sub) (hnd : (ids sub ++ ctx.ids).Nodup)
+    (hok : ClimbOk ctx (sub, true)) (hf : ctx.depth < fuel) :
+    ∃ h', removeUpLoop multi fuel h ctx.par old = some h' ∧ Repr h' h'.root 0 (ctx.climb (sub, true)).1 ∧
+      h'.key = h.key ∧ h'.value = h.value := by
+  have := removeUpwards_loop_eq ctx h sub fuel old hc hs hnd hok hf
+  cases multi with
+  | false => exact this
+  | true => simp only [removeUpLoop, if_true, multi_removeUp]; exact this
+
+/-- **`remove(it)` of an item without left or without right child, complete** (head + `rebalParentUpwards`): the heap that
+    held the AVL tree `ctx.plug t` with the item `t`'s root in the hole of `ctx` holds the model's
+    `delIdx (position of the item) (ctx.plug t)` afterwards. -/
+theorem gen_remove_trivial_eq_model (multi : Bool) (ctx : Ctx) (h : Heap) (i : Nat) (k v : Int) (hh : Nat) (s : Int)
+    (l r : Tree) (fuel old : Nat) (htriv : l = .nil ∨ r = .nil)
+    (hc : ReprCtx h ctx) (hs : Repr h (h.get ctx.cell) ctx.par (node i k v hh s l r))
+    (hcell : ctx.cell = .right ctx.par → h.left ctx.par ≠ h.get ctx.cell)
+    (hnd : (ids (node i k v hh s l r) ++ ctx.ids).Nodup) (hA : Avl (ctx.plug (node i k v hh s l r)))
+    (hf : ctx.depth < fuel) :
+    let res := (if multi then Multi.removeHead else Map.removeHead) h (h.get ctx.cell)
+    ∃ h', removeUpLoop multi fuel res.1 res.2.1 old = some h' ∧
+      Repr h' h'.root 0 (Tree.delIdx (ctx.pos l.size) (ctx.plug (node i k v hh s l r))).1 := by
+  have hnd' := hnd
+  rw [List.nodup_append] at hnd'
+  obtain ⟨n1, n2, n3⟩ := hnd'
+  have hsep : Sep ctx.par (node i k v hh s l r) := by
+    refine ⟨n1, ?_⟩
+    intro j hj e
+    cases ctx with
+    | top => simp [Ctx.par] at e
+    | left q _ _ _ _ _ _ =>
+      simp only [Ctx.par] at e
+      have : q = j := by omega
+      subst this; exact n3 q hj q (by simp [Ctx.ids]) rfl
+    | right q _ _ _ _ _ _ =>
+      simp only [Ctx.par] at e
+      have : q = j := by omega
+      subst this; exact n3 q hj q (by simp [Ctx.ids]) rfl
+  obtain ⟨g1, g2, _⟩ := gen_remove_head_eq_model multi h ctx.cell ctx.par i k v hh s l r (cellAt_ctx ctx) hcell hsep hs
+  obtain ⟨_, g3, g4⟩ := g2 htriv
+  intro res
+  have hAt := avl_plug ctx _ hA
+  have hAt' := hAt
+  rw [avl_node] at hAt'
+  -- the subtree that comes back: AVL, one level lower, its ids among the old ones
+  have hsub : Avl (Tree.removeRoot (node i k v hh s l r)) ∧
+      ((Tree.removeRoot (node i k v hh s l r)).height : Int) - (node i k v hh s l r).height ≤ 1 ∧
+      -1 ≤ ((Tree.removeRoot (node i k v hh s l r)).height : Int) - (node i k v hh s l r).height ∧
+      (∀ j ∈ ids (Tree.removeRoot (node i k v hh s l r)), j ∈ ids (node i k v hh s l r)) ∧
+      (ids (Tree.removeRoot (node i k v hh s l r))).Nodup := by
+    obtain ⟨a1, a2, a3, a4, a5, a6⟩ := hAt'
+    rw [ids_node, List.nodup_append] at n1
+    cases l with
+    | nil =>
+      cases r with
+      | nil => simp [Tree.removeRoot, Tree.height, ids]
+      | node ri rk rv rh rs rl rr =>
+        simp only [Tree.removeRoot, Tree.height] at a4 ⊢
+        refine ⟨a2, by omega, by omega, fun j hj => by simp [ids_node] at hj ⊢; grind, (List.nodup_cons.mp n1.2.1).2⟩
+    | node li lk lv lh ls ll lr =>
+      cases r with
+      | nil =>
+        simp only [Tree.removeRoot, Tree.height] at a4 ⊢
+        refine ⟨a1, by omega, by omega, fun j hj => by simp [ids_node] at hj ⊢; grind, n1.1⟩
+      | node ri rk rv rh rs rl rr => rcases htriv with e | e <;> simp at e
+  obtain ⟨s1, s2, s3, s4, s5⟩ := hsub
+  have hok : ClimbOk ctx (Tree.removeRoot (node i k v hh s l r), true) :=
+    climbOk_of_avl ctx _ _ hA s1 ⟨s2, s3⟩ (by simp)
+  have hc' : ReprCtx res.1 ctx := reprCtx_frame_hole ctx hc g4
+    (fun j hj hm => n3 j ((mem_iff_ids' _ _).mp hm) j hj rfl) n2
+  have hnd2 : (ids (Tree.removeRoot (node i k v hh s l r)) ++ ctx.ids).Nodup := by
+    rw [List.nodup_append]
+    exact ⟨s5, n2, fun a ha b hb => n3 a (s4 a ha) b hb⟩
+  obtain ⟨h', e1, e2, _, _⟩ := gen_remove_up_eq_climb multi ctx res.1 _ fuel old hc' g3 hnd2 hok hf
+  refine ⟨h', by rw [g1]; exact e1, ?_⟩
+  have hd := delIdx_plug ctx (node i k v hh s l r) l.size (by simp only [Tree.size]; omega)
+  rw [hd]
+  simpa [Tree.delIdx] using e2
+
 /-! ### non-vacuity: a concrete heap -/
 
 /-- items 0,1,2 (pointers 1,2,3) form the left-leaning chain 5 ← 3 ← 1 hanging in `root` -/
